@@ -741,7 +741,9 @@ def _r5(ck: Checker, r):
                         continue
                     binds = [st for st in ast.walk(body) if isinstance(st, (ast.Assign, ast.AugAssign, ast.AnnAssign)) and any(
                         isinstance(t, ast.Name) and t.id == a.id for tt in (st.targets if isinstance(st, ast.Assign) else [st.target]) for t in ast.walk(tt))]
-                    extra = [st for st in binds if not (isinstance(st, ast.Assign) and isinstance(st.value, ast.List) and not st.value.elts)]
+                    reorders = lambda st: any(call_name(x) in ("sorted", "argsort", "reversed", "lexsort", "sort", "flip", "unique") for x in calls_in(st)) or \
+                        any(isinstance(x, ast.Slice) and x.step is not None for x in ast.walk(st))      # noqa: E731
+                    extra = [st for st in binds[1:]] + [st for st in binds[:1] if reorders(st)]
                     sorts = [x for x in calls_in(body) if call_name(x) in ("sort", "reverse") and isinstance(x.func, ast.Attribute) and unparse(x.func.value) == a.id]
                     if extra or sorts:
                         bad_st = (extra or [parent_stmt(sorts[0])])[0]
